@@ -23,7 +23,7 @@ EXPLANATION = (
     "range, empty for b == a-1 (the call split() makes after a marked last observation), feature table carried over as a copy, source "
     "untouched.")
 ASSUMPTIONS = ["limit = 0 (no piece is filtered out by length)", "bounded: at most 3 tested features, marker vectors up to length 5, tracks of 4 observations for extract"]
-TECHNIQUE = "abstract interpretation of the function bodies on finite case domains: comparison outcomes x NaN (F4), all marker vectors up to a bound (F3), index pairs (F3)"
+TECHNIQUE = "abstract interpretation of the function bodies on finite case domains: comparison outcomes x NaN x value kind (Python float, numpy float64 / float32 scalar; the repository's isnan interpreted) (F4), all marker vectors up to a bound (F3), index pairs (F3)"
 
 NAN = float('nan')
 
